@@ -141,7 +141,7 @@ static const char *sym_of(const void *p) {
 enum { ST_FREE = 0, ST_RUN, ST_MUTEX, ST_COND, ST_JOIN, ST_SIGWAIT, ST_FLOCK, ST_DONE };
 enum Op { OP_START = 1, OP_LOCK, OP_WAIT, OP_SIGNAL, OP_BCAST, OP_CREATE, OP_JOIN, OP_TEXIT, OP_FLOCK,
           OP_READ, OP_WRITE, OP_CLOSE, OP_OPEN, OP_UNLINK, OP_STAT, OP_META, OP_KILL, OP_SIGSUSP,
-          OP_PEXIT, OP_SIGRUN, OP_WAKE, OP_TASK, OP_ISATTY };
+          OP_PEXIT, OP_SIGRUN, OP_WAKE, OP_TASK, OP_ISATTY, OP_PREEMPT };
 
 #define BIT(s) (1ull << (s))
 #define MAXF 192
@@ -212,6 +212,8 @@ struct State {
   unsigned call_cnt[C_NCALLS][3];
   std::unordered_set<uint64_t> states;
   int nworkers_created = 0;
+  uint64_t preempt_steps = 0;
+  int64_t preempt_countdown = 0;     // "preempt" variant: instrumented accesses until the next preemption point (<= 0: none pending)
   std::unordered_map<const void *, int> objid;   // address-independent ids for the history hash
   std::vector<std::string> argv_copy;
   std::vector<char *> argv_ptrs;
@@ -221,7 +223,7 @@ static char *g_snap;
 static size_t g_dn, g_bn;
 static std::vector<char *> g_stacks;
 
-static uint64_t real_ns() { struct timespec t; clock_gettime(CLOCK_MONOTONIC, &t); return t.tv_sec * 1000000000ull + t.tv_nsec; }
+__attribute__((unused)) static uint64_t real_ns() { struct timespec t; clock_gettime(CLOCK_MONOTONIC, &t); return t.tv_sec * 1000000000ull + t.tv_nsec; }
 
 __attribute__((no_sanitize("address", "thread"), noinline)) static void rawcpy(char *d, const char *s, size_t n) {
   for (size_t i = 0; i < n; i++) ((volatile char *)d)[i] = s[i];
@@ -240,8 +242,9 @@ static inline void shim_leave() { if (S && S->cur >= 0 && --S->F[S->cur].shim_de
 static inline void shim_suspend() { if (S && S->cur >= 0 && S->F[S->cur].shim_depth > 0) TS_IGN_END(); }
 static inline void shim_resume() { if (S && S->cur >= 0 && S->F[S->cur].shim_depth > 0) TS_IGN_BEGIN(); }
 #else
-static inline void shim_enter() {}
-static inline void shim_leave() {}
+// the nesting depth is kept in every variant: the "preempt" variant must not preempt inside simulator code
+static inline void shim_enter() { if (S && S->cur >= 0) S->F[S->cur].shim_depth++; }
+static inline void shim_leave() { if (S && S->cur >= 0) S->F[S->cur].shim_depth--; }
 static inline void shim_suspend() {}
 static inline void shim_resume() {}
 #endif
@@ -442,11 +445,12 @@ static void schedule_point(int op, int64_t a) {
   // the I/O calls actually made, so that fragmentation cannot fake a livelock while a spinning
   // scheduler (steps without I/O) still exhausts it
   uint64_t budget = (s.plan->step_budget ? s.plan->step_budget : 5000000) + 100ull * (s.call_cnt[C_READ][R_ANY] + s.call_cnt[C_WRITE][R_ANY]);
-  if (R.steps > budget) end_run(X_BUDGET, 0);
+  if (op == OP_PREEMPT) s.preempt_steps++;     // preemption points inside unsynchronised code are not scheduler progress
+  if (R.steps - s.preempt_steps > budget) end_run(X_BUDGET, 0);
 
   const Sched &sc = s.plan->sched;
   // spurious wake-up coin (a recorded choice, only when configured)
-  if (sc.spurious) {
+  if (sc.spurious && op != OP_PREEMPT) {    // (not at preemption points: their number is unrelated to scheduler progress)
     uint32_t idx = s.nchoice++, v = 0;
     if (sc.explicit_) {
       if (dev_lookup(idx, &v)) { if (!(v >= 1 && (int)v <= s.nf && s.F[v - 1].state == ST_COND)) v = 0; }
@@ -518,6 +522,32 @@ static void schedule_point(int op, int64_t a) {
   Fiber &f = s.F[s.cur];
   if (f.state != ST_RUN) f.state = ST_RUN;
   deliver_pending();   // asynchronous signals act when the thread next runs
+}
+
+// "preempt" variant: lbzip2's objects are compiled with -fsanitize=thread only to get a call at every memory
+// access; the hooks (sim/preempt.cc) land here.  Every so many accesses (a recorded choice) the running thread
+// offers a decision point *inside* unsynchronised code, so interleavings within such regions are explored too.
+static void draw_preempt_countdown() {
+  State &s = *S;
+  const Sched &sc = s.plan->sched;
+  uint32_t idx = s.nchoice++, v = 0;
+  if (sc.explicit_) { uint32_t x; if (dev_lookup(idx, &x)) v = x; }
+  else if (sc.preempt) v = 1 + (uint32_t)s.rng.below(2ull * sc.preempt);
+  rec_choice(idx, v, 0);
+  s.preempt_countdown = v ? (int64_t)v : (int64_t)1 << 62;
+}
+void preempt_access() {
+  State *s = S;
+  if (!s || s->cur < 0 || s->over) return;
+  if (--s->preempt_countdown > 0) return;
+  Fiber &f = s->F[s->cur];
+  if (f.shim_depth > 0 || f.state != ST_RUN) { s->preempt_countdown = 1; return; }    // not inside simulator code / signal handlers
+  if (!s->plan->sched.preempt && !s->plan->sched.explicit_) { s->preempt_countdown = (int64_t)1 << 62; return; }
+  draw_preempt_countdown();
+  if (s->nf < 2) return;
+  f.shim_depth++;
+  schedule_point(OP_PREEMPT, 0);
+  f.shim_depth--;
 }
 
 // block until enabled (state must already be set), then continue
@@ -1447,8 +1477,7 @@ Result run(const Plan &plan) {
 #ifdef SIM_TSAN
   s.root_ts = __tsan_get_current_fiber();
 #endif
-  uint64_t t0 = real_ns();
-  (void)t0;
+  s.preempt_countdown = 1;     // first instrumented access draws the first countdown
   new_fiber(nullptr, nullptr, 0, FC_MAIN);
   TS_REL(&s.F[0]);
   ev(OP_START, 0, 0);
